@@ -61,6 +61,10 @@ class MapT(T):
     def __init__(self, val=Int): self.val = val
 
 
+class DictIntT(T):
+    """dict with integer keys and values (object ids)."""
+
+
 class GListT(T):
     """Python list with at most `maxlen` elements (a guarded list: slot k is present iff the length exceeds k)."""
     def __init__(self, elem=Int, maxlen=3):
@@ -119,6 +123,9 @@ def mk(t, name, inv):
         if isinstance(t.val, MapT):
             return MapV(fresh(name + ".map2", z3.ArraySort(I, AII)))
         return MapV(fresh(name + ".map", AII))
+    if isinstance(t, DictIntT):
+        from .values import DictIntV
+        return DictIntV(fresh(name + ".has", z3.ArraySort(I, B)), fresh(name + ".val", AII))
     if isinstance(t, GListT):
         n = fresh(name + ".len", I)
         inv.append(z3.And(0 <= n, n <= t.maxlen))
